@@ -3507,10 +3507,10 @@ impl LuaCommandAdapter {
     /// Execute command from Lua context with proper atomicity
     pub fn execute_lua_command(
         &self,
-        args: Vec<String>,
+        args: Vec<Vec<u8>>,
         db_index: usize,
     ) -> Result<RespFrame> {
-        // Convert string args to RESP frames for parsing
+        // Convert byte-string args to RESP frames for parsing
         let frames: Vec<RespFrame> = args
             .into_iter()
             .map(|s| RespFrame::bulk_string(s))
